@@ -283,7 +283,7 @@ func (p *sparser) parseType() string {
 	if p.cur().k != "id" {
 		p.fail("expected type name, got %q", p.cur().s)
 	}
-	if (p.cur().s == "map" || p.cur().s == "seq") && p.toks[p.p+1].k == "op" && p.toks[p.p+1].s == "[" {
+	if (p.cur().s == "map" || p.cur().s == "seq" || p.cur().s == "gomap") && p.toks[p.p+1].k == "op" && p.toks[p.p+1].s == "[" {
 		kw := p.next().s
 		p.expect("[")
 		inner := p.parseType()
@@ -291,7 +291,7 @@ func (p *sparser) parseType() string {
 		if kw == "seq" {
 			return sb.String() + "seq[" + inner + "]"
 		}
-		return sb.String() + "map[" + inner + "]" + p.parseType()
+		return sb.String() + kw + "[" + inner + "]" + p.parseType()
 	}
 	sb.WriteString(p.next().s)
 	if p.isOp(".") && p.toks[p.p+1].k == "id" {
@@ -493,7 +493,12 @@ func (p *sparser) postfix() *SExpr {
 			p.next()
 			var args []*SExpr
 			for !p.isOp(")") {
-				args = append(args, p.expr())
+				if len(args) == 1 && a.Kind == SIdent && (a.Name == "asType" || a.Name == "typeIs") {
+					// the second argument is a type
+					args = append(args, &SExpr{Kind: SIdent, Name: p.parseType(), Pos: p.cur().pos})
+				} else {
+					args = append(args, p.expr())
+				}
 				if !p.accept(",") {
 					break
 				}
